@@ -39,7 +39,7 @@ FQ == {[test |-> "anyof", filters |-> <<[name |-> "N1", test |-> "", isnd |-> FA
        [test |-> "", filters |-> <<[name |-> "N9", test |-> "", isnd |-> TRUE, tms |-> << >>]>>]}
 Projs == {<<FALSE, << >>>>, <<TRUE, << >>>>, <<TRUE, <<"N1">>>>} \cup {<<FALSE, s>> : s \in {<<"N1">>, <<"N2">>, <<"N3">>, <<"N1", "N2">>, <<"N2", "N1", "N3">>, <<"FN">>, <<"N9">>}}
 FCases == {[q |-> [test |-> q.test, filters |-> q.filters, limit |-> lim, props |-> pr[2], allprop |-> pr[1]], list |-> l] :
-             q \in FQ, lim \in -1..6, pr \in Projs, l \in Lists}
+             q \in FQ, lim \in (-1..6) \cup {2147483647}, pr \in Projs, l \in Lists}   \* (the largest limit stands for the largest int of the platform)
 
 \* ---------------- F0 laws
 \* De Morgan duality of anyof / allof under negation of every text-match
